@@ -59,6 +59,8 @@ def run(ctx, replay=None):
             c = np.array(case['coords'], float)
             v = np.array(case['values'], float)
             npts, dim = c.shape
+            if case['bin_func'] == 'ward' and case.get('bins') is None and isinstance(V.distance_matrix, np.ndarray):
+                vc.ward_reference(ctx, case, V, base[0], V.maxlag)
             # degenerate rule-based binning: all distances within the maximum lag identical (numpy widens the zero range by +-0.5)
             zsig = None
             try:
@@ -77,6 +79,27 @@ def run(ctx, replay=None):
                 cs = dict(case, coords=c[perm].tolist(), values=v[perm].tolist())
                 same(ctx, case, 'reordering the points', base, results(cs)[:3], exact=False)
                 done += 1
+            elif case.get('bins') is None and case['bin_func'] in ('kmeans', 'ward'):
+                # clustering-based edges: reordering the points reorders the distance vector handed to the clustering
+                perm = list(range(npts))
+                rng.shuffle(perm)
+                cs = dict(case, coords=c[perm].tolist(), values=v[perm].tolist())
+                try:
+                    rp = results(cs)
+                    sigp = None
+                    from skgstat import binning
+                    fn = getattr(binning, case['bin_func'])
+                    d0, d1 = np.sort(np.asarray(V.distance, float)), np.sort(np.asarray(rp[3].distance, float))
+                    if len(d0) == len(d1) and np.allclose(d0, d1, rtol=1e-12, atol=1e-12):
+                        e0 = fn(d0, case['n_lags'], V.maxlag)[0]
+                        e1 = fn(d1, case['n_lags'], rp[3].maxlag)[0]
+                        if np.allclose(e0, e1, rtol=1e-12, atol=1e-12):
+                            # the same multiset in the same (sorted) order gives the same edges: only the order differs
+                            sigp = {'what': 'clustering-depends-on-order-of-distances', 'method': case['bin_func']}
+                    same(ctx, case, 'reordering the points', base, rp[:3], exact=False, sig=sigp)
+                    done += 1
+                except Exception as e:
+                    ctx.count('perm_rejected', type(e).__name__)
             # 2 translation (dyadic: exact)
             shift = np.array([rng.randint(-64, 64) / 4.0 for _ in range(dim)])
             cs = dict(case, coords=(c + shift).tolist())
@@ -131,10 +154,36 @@ def run(ctx, replay=None):
                 done += 2
             ctx.count('transformations_per_case', done)
             ctx.tests['metamorphic_runs'] = ctx.tests.get('metamorphic_runs', 0) + done
+        # ---- Cressie-Hawkins: the R-valued specification the C10 theorems speak about, evaluated inside Coq (interval
+        # arithmetic) on generated classes, against estimators.cressie
+        from fractions import Fraction
+        from skgstat import estimators
+        goals, meta = [], []
+        for t in range(16 if not ctx.thorough() else 80):
+            nn = rng.choice([1, 2, 3, 4, 5, 7, 9, 12])
+            kind = rng.choice(['ints', 'dyadic', 'ties'])
+            xs = [Fraction(rng.randint(0, 40)) if kind == 'ints' else Fraction(rng.randint(0, 4096), 64) if kind == 'dyadic' else Fraction(rng.choice([0, 1, 4, 4, 9])) for _ in range(nn)]
+            obs = float(estimators.cressie(np.array([float(x) for x in xs])))
+            of = Fraction(obs)
+            tol = Fraction(1, 10 ** 9) * max(1, abs(of))
+            lst = '; '.join('%d / %d' % (x.numerator, x.denominator) for x in xs)
+            goals.append(('Rabs (cressieR [%s] - (%d / %d)) <= %d / %d' % (lst, of.numerator, of.denominator, tol.numerator, tol.denominator),
+                          'unfold cressieR, cressie_den, sumR; cbn [length map fold_right]; unfold INR; interval with (i_prec 80).'))
+            meta.append({'estimator': 'cressie', 'class': [float(x) for x in xs], 'impl': obs})
+        nproved, failing, log = coq.interval_goals(goals, imports='Spec.EstimatorsR')
+        ctx.interval_goals = len(goals)
+        if failing:
+            k = failing[0]
+            ctx.problem('correspondence', 'interval goal: Spec.EstimatorsR.cressieR evaluated inside Coq differs from estimators.cressie (or the goal could not be discharged)',
+                        meta[k], {'log': log[-300:]}, {'what': 'interval-goal'})
+            coq.broken.append({'kind': 'proof', 'file': 'Cases/C10_interval.v', 'lemma': 'goal %d (cressie)' % k, 'error': log[-300:]})
+        ctx.extra['interval_goal_samples'] = meta[:3]
+        # Matheron / Dowd / Genton: estimators.py against the exact-rational models the C10 theorems speak about
+        vc.check_estimators(ctx, model, 30 if not ctx.thorough() else 200)
         vc.run_golden(ctx, coq, model)
     finally:
         model.close()
     ctx.extra['rule'] = ('each generated configuration is re-run under: point permutation, dyadic translation, 90-degree rotation, reflection, '
                          'rotation by atan(4/3) (skipped when a distance is within 1e-9 of an edge), value shift, value scale k in {2,-3,1/2}, '
                          'coordinate scale s in {2,1/4}; non-trivial = at least two non-empty lag classes')
-    return core.finish(ctx, coq, vc.TRUSTED_STRUCT, vc.ASSUME_STRUCT + ['Dowd/Genton/Cressie k^2 laws and permutation invariance: tested (metamorphic), not proved'])
+    return core.finish(ctx, coq, vc.TRUSTED_STRUCT, vc.ASSUME_STRUCT)
